@@ -15,6 +15,9 @@ import (
 	"github.com/insomniacslk/dhcp/dhcpv4"
 	"github.com/insomniacslk/dhcp/dhcpv6"
 	"github.com/insomniacslk/dhcp/iana"
+	"github.com/insomniacslk/dhcp/netboot"
+	"github.com/insomniacslk/dhcp/dhcpv4/ztpv4"
+	"github.com/insomniacslk/dhcp/dhcpv6/ztpv6"
 	"github.com/insomniacslk/dhcp/rfc1035label"
 )
 
@@ -127,6 +130,84 @@ type subject struct {
 	obs   func() map[string]any // {"enc","val","str"}
 	recv  []reflect.Value       // receivers whose read-only methods are called
 	enc   func() []byte
+	uses  []readUse             // read-only uses that are not niladic methods: package functions taking the value, methods with arguments
+}
+
+// readUse is one read-only use of a value; its result is fingerprinted (builders that draw a fresh transaction id
+// report only whether they succeeded)
+type readUse struct {
+	name string
+	f    func() any
+}
+
+func useResult(u readUse) (r string) {
+	defer func() {
+		if e := recover(); e != nil {
+			r = "PANIC:" + fmt.Sprint(e)
+		}
+	}()
+	v := u.f()
+	if v == nil {
+		return hs("nil")
+	}
+	return hs(fp(reflect.ValueOf(v), 0))
+}
+
+// uses4: everything the packages offer for reading a DHCPv4 packet besides its niladic methods
+func uses4(p *dhcpv4.DHCPv4) []readUse {
+	errOnly := func(_ any, err error) any { return err != nil }
+	return []readUse{
+		{"netboot.GetNetConfFromPacketv4", func() any { nc, err := netboot.GetNetConfFromPacketv4(p); return []any{nc, err != nil} }},
+		{"ztpv4.ParseVendorData", func() any { vd, err := ztpv4.ParseVendorData(p); return []any{vd, err != nil} }},
+		{"netboot.ConversationToNetconfv4", func() any { nc, err := netboot.ConversationToNetconfv4([]*dhcpv4.DHCPv4{p, p, p, p}); return []any{nc, err != nil} }},
+		{"ztpv4.ParseCircuitID", func() any { c, err := ztpv4.ParseCircuitID(p); return []any{c, err != nil} }},
+		{"dhcpv4.NewReplyFromRequest", func() any { r, err := dhcpv4.NewReplyFromRequest(p); return []any{r, err != nil} }},
+		{"dhcpv4.NewRequestFromOffer", func() any { r, err := dhcpv4.NewRequestFromOffer(p); return []any{r, err != nil} }},
+		{"dhcpv4.NewRenewFromAck", func() any { r, err := dhcpv4.NewRenewFromAck(p); return []any{r, err != nil} }},
+		{"dhcpv4.NewReleaseFromACK", func() any { return errOnly(dhcpv4.NewReleaseFromACK(p)) }},
+		{"IsOptionRequested(6)", func() any { return p.IsOptionRequested(dhcpv4.OptionDomainNameServer) }},
+		{"IsOptionRequested(200)", func() any { return p.IsOptionRequested(dhcpv4.GenericOptionCode(200)) }},
+		{"GetOneOption(55)", func() any { return p.GetOneOption(dhcpv4.OptionParameterRequestList) }},
+		{"InformationRefreshTime-style defaults", func() any {
+			return []any{p.IPAddressLeaseTime(time.Hour), p.IPAddressRenewalTime(time.Minute), p.IPAddressRebindingTime(time.Second)}
+		}},
+	}
+}
+
+// uses6: the same for DHCPv6 messages and relay chains
+func uses6(d dhcpv6.DHCPv6) []readUse {
+	us := []readUse{
+		{"dhcpv6.ExtractMAC", func() any { m, err := dhcpv6.ExtractMAC(d); return []any{m, err != nil} }},
+		{"ztpv6.ParseVendorData", func() any { vd, err := ztpv6.ParseVendorData(d); return []any{vd, err != nil} }},
+		{"ztpv6.ParseRemoteID", func() any { c, err := ztpv6.ParseRemoteID(d); return []any{c, err != nil} }},
+		{"dhcpv6.DecapsulateRelay", func() any { x, err := dhcpv6.DecapsulateRelay(d); return []any{x, err != nil} }},
+		{"dhcpv6.DecapsulateRelayIndex(-1)", func() any { x, err := dhcpv6.DecapsulateRelayIndex(d, -1); return []any{x, err != nil} }},
+		{"dhcpv6.GetTransactionID", func() any { x, err := dhcpv6.GetTransactionID(d); return []any{x, err != nil} }},
+		{"GetOption(6)", func() any { return d.GetOption(dhcpv6.OptionORO) }},
+		{"GetOneOption(3)", func() any { return d.GetOneOption(dhcpv6.OptionIANA) }},
+	}
+	if m, ok := d.(*dhcpv6.Message); ok {
+		us = append(us,
+			readUse{"netboot.GetNetConfFromPacketv6", func() any { nc, err := netboot.GetNetConfFromPacketv6(m); return []any{nc, err != nil} }},
+			readUse{"netboot.ConversationToNetconf", func() any {
+				nc, err := netboot.ConversationToNetconf([]dhcpv6.DHCPv6{m, m})
+				return []any{nc, err != nil}
+			}},
+			readUse{"dhcpv6.NewAdvertiseFromSolicit", func() any { r, err := dhcpv6.NewAdvertiseFromSolicit(m); return []any{r, err != nil} }},
+			readUse{"dhcpv6.NewReplyFromMessage", func() any { r, err := dhcpv6.NewReplyFromMessage(m); return []any{r, err != nil} }},
+			readUse{"dhcpv6.NewRequestFromAdvertise", func() any { _, err := dhcpv6.NewRequestFromAdvertise(m); return err != nil }},
+			readUse{"IsOptionRequested(23)", func() any { return m.IsOptionRequested(dhcpv6.OptionDNSRecursiveNameServer) }},
+			readUse{"IsOptionRequested(59)", func() any { return m.IsOptionRequested(dhcpv6.OptionBootfileURL) }},
+			readUse{"Options.VendorClass(9)", func() any { return m.Options.VendorClass(9) }},
+			readUse{"Options.VendorOpt(9)", func() any { return m.Options.VendorOpt(9) }},
+			readUse{"Options.InformationRefreshTime(def)", func() any { return m.Options.InformationRefreshTime(time.Hour) }},
+		)
+	}
+	if r, ok := d.(*dhcpv6.RelayMessage); ok {
+		reply := &dhcpv6.Message{MessageType: dhcpv6.MessageTypeReply}
+		us = append(us, readUse{"dhcpv6.NewRelayReplFromRelayForw", func() any { x, err := dhcpv6.NewRelayReplFromRelayForw(r, reply); return []any{x, err != nil} }})
+	}
+	return us
 }
 
 func safe(f func() map[string]any) (m map[string]any) {
@@ -144,7 +225,7 @@ func subj4(p *dhcpv4.DHCPv4) subject {
 			val, str := proj4(p), hs(p.Summary()+p.String()) // read before this observation's own encoding
 			return map[string]any{"a": "Obs", "enc": B(p.ToBytes()), "val": val, "str": str}
 		},
-		recv: []reflect.Value{reflect.ValueOf(p)}, enc: p.ToBytes}
+		recv: []reflect.Value{reflect.ValueOf(p)}, enc: p.ToBytes, uses: uses4(p)}
 }
 func subj6(d dhcpv6.DHCPv6) subject {
 	s := subject{proto: "v6",
@@ -152,7 +233,7 @@ func subj6(d dhcpv6.DHCPv6) subject {
 			val, str := proj6(d), hs(d.Summary()+d.String()) // read before this observation's own encoding
 			return map[string]any{"a": "Obs", "enc": B(d.ToBytes()), "val": val, "str": str}
 		},
-		recv: []reflect.Value{reflect.ValueOf(d)}, enc: d.ToBytes}
+		recv: []reflect.Value{reflect.ValueOf(d)}, enc: d.ToBytes, uses: uses6(d)}
 	if m, ok := d.(*dhcpv6.Message); ok {
 		s.recv = append(s.recv, reflect.ValueOf(m.Options))
 		for _, o := range m.Options.Options {
@@ -232,6 +313,26 @@ func corpus6(rng *rand.Rand, n int) [][]byte {
 	}
 	for i := 0; i < n; i++ {
 		out = append(out, randMsg6(rng, 1+rng.Intn(3), pick(rng, 0, 0, 1, 2, 3)).ToBytes())
+	}
+	// every place a link-layer address travels in (client link-layer address option of a relay, DUID-LL / DUID-LLT of the
+	// relayed client), for the hardware types of the registry, with addresses of every length from none to over-long
+	for _, hw := range []iana.HWType{1, 6, 27, 32, 0} {
+		for L := 0; L <= 9; L++ {
+			inner := &dhcpv6.Message{MessageType: dhcpv6.MessageTypeSolicit}
+			copy(inner.TransactionID[:], randBytes(rng, 3))
+			if L%2 == 0 {
+				inner.AddOption(dhcpv6.OptClientID(&dhcpv6.DUIDLL{HWType: hw, LinkLayerAddr: randBytes(rng, L)}))
+			} else {
+				inner.AddOption(dhcpv6.OptClientID(&dhcpv6.DUIDLLT{HWType: hw, Time: 7, LinkLayerAddr: randBytes(rng, L)}))
+			}
+			out = append(out, inner.ToBytes())
+			r, _ := dhcpv6.EncapsulateRelay(inner, dhcpv6.MessageTypeRelayForward, net.ParseIP("2001:db8::1"), net.ParseIP("fe80::1"))
+			out = append(out, r.ToBytes())
+			r.AddOption(dhcpv6.OptClientLinkLayerAddress(hw, net.HardwareAddr(randBytes(rng, L))))
+			out = append(out, r.ToBytes())
+			r2, _ := dhcpv6.EncapsulateRelay(r, dhcpv6.MessageTypeRelayForward, net.ParseIP("2001:db8::2"), net.ParseIP("fe80::2"))
+			out = append(out, r2.ToBytes())
+		}
 	}
 	// compressed names (the label set keeps its original bytes)
 	names := []byte{3, 'f', 'o', 'o', 3, 'c', 'o', 'm', 0, 3, 'b', 'a', 'r', 0xc0, 4}
@@ -415,14 +516,22 @@ func genC20(o *Out, rng *rand.Rand, tier string) {
 		}
 		steps := 1 + rng.Intn(6)
 		for k := 0; k < steps; k++ {
-			m := all[rng.Intn(len(all))]
-			name := fmt.Sprintf("#%d %s.%s", m.i, m.r.Type().String(), m.m) // receiver index: two options of one type are two receivers
-			ev = append(ev, map[string]any{"a": "Call", "m": name, "r": callMethod(m.r, m.m)})
+			var name string
+			var call func() string
+			if len(s.uses) > 0 && rng.Intn(4) == 0 {
+				u := s.uses[rng.Intn(len(s.uses))]
+				name, call = "use "+u.name, func() string { return useResult(u) }
+			} else {
+				m := all[rng.Intn(len(all))]
+				name = fmt.Sprintf("#%d %s.%s", m.i, m.r.Type().String(), m.m) // receiver index: two options of one type are two receivers
+				call = func() string { return callMethod(m.r, m.m) }
+			}
+			ev = append(ev, map[string]any{"a": "Call", "m": name, "r": call()})
 			if rng.Intn(2) == 0 || k == steps-1 {
 				ev = append(ev, safe(s.obs))
 			}
 			if rng.Intn(3) == 0 { // the same call again must give the same result
-				ev = append(ev, map[string]any{"a": "Call", "m": name, "r": callMethod(m.r, m.m)})
+				ev = append(ev, map[string]any{"a": "Call", "m": name, "r": call()})
 			}
 		}
 		o.Emit(map[string]any{"proto": s.proto, "in": []int{}, "ev": ev}, cls, append(key, byte(steps)), true)
@@ -444,6 +553,15 @@ func genC20(o *Out, rng *rand.Rand, tier string) {
 				ev = append(ev, printCall(s)...) // printed again at the end of the life
 				o.Emit(map[string]any{"proto": s.proto, "in": []int{}, "ev": ev}, cls, append(append([]byte(nil), key...), name...), true)
 			}
+		}
+		for i := range s0.uses {
+			s := fresh()
+			u := s.uses[i]
+			name := "use " + u.name
+			ev := append(printFirst(s), safe(s.obs), map[string]any{"a": "Call", "m": name, "r": useResult(u)}, safe(s.obs),
+				map[string]any{"a": "Call", "m": name, "r": useResult(u)}, safe(s.obs))
+			ev = append(ev, printCall(s)...)
+			o.Emit(map[string]any{"proto": s.proto, "in": []int{}, "ev": ev}, cls, append(append([]byte(nil), key...), name...), true)
 		}
 	}
 	for _, c := range v6Known {
@@ -482,6 +600,42 @@ func genC20(o *Out, rng *rand.Rand, tier string) {
 		}, "packet4-every-method")
 		kk := k
 		exhaustive(func(r *rand.Rand) subject { return subj6(randMsg6(r, 2, kk%3)) }, "message6-every-method")
+	}
+	// what a boot client receives: replies carrying everything the configuration extractors look at, with name lists
+	// that contain the root, repeated and mixed-case names
+	for k := 0; k < 10; k++ {
+		kk := k
+		exhaustive(func(r *rand.Rand) subject {
+			m := &dhcpv6.Message{MessageType: dhcpv6.MessageTypeReply}
+			copy(m.TransactionID[:], randBytes(r, 3))
+			names := [][]string{{"", "a.example"}, {"x.example", "", "y.example"}, {"", ""}, {"A.Example", "a.example"}, {"corp.example", "corp.example", ""}}[kk%5]
+			m.AddOption(randOpt6(r, 1, 1))
+			m.AddOption(randOpt6(r, 3, 2))
+			m.AddOption(dhcpv6.OptDNS(net.ParseIP("2001:db8::53")))
+			m.AddOption(dhcpv6.OptDomainSearchList(&rfc1035label.Labels{Labels: append([]string(nil), names...)}))
+			m.AddOption(randOpt6(r, 56, 1))
+			m.AddOption(dhcpv6.OptBootFileURL("http://boot.example/x"))
+			if kk >= 5 { // as received
+				if d, err := dhcpv6.FromBytes(m.ToBytes()); err == nil {
+					return subj6(d)
+				}
+			}
+			return subj6(m)
+		}, "netboot-reply6-every-method")
+		exhaustive(func(r *rand.Rand) subject {
+			names := [][]string{{"", "a.example"}, {"x.example", "", "y.example"}, {"A.Example", "a.example"}}[kk%3]
+			p, _ := dhcpv4.New(dhcpv4.WithYourIP(net.IPv4(10, 1, 2, 3)), dhcpv4.WithNetmask(net.CIDRMask(24, 32)), dhcpv4.WithRouter(net.IPv4(10, 1, 2, 1)),
+				dhcpv4.WithDNS(net.IPv4(10, 1, 2, 53)), dhcpv4.WithLeaseTime(3600), dhcpv4.WithMessageType(dhcpv4.MessageTypeAck),
+				dhcpv4.WithOption(dhcpv4.OptNTPServers(net.IPv4(10, 1, 2, 123))), dhcpv4.WithOption(dhcpv4.OptBootFileName("pxelinux.0")),
+				dhcpv4.WithOption(dhcpv4.OptDomainSearch(&rfc1035label.Labels{Labels: append([]string(nil), names...)})))
+			copy(p.TransactionID[:], randBytes(r, 4))
+			if kk >= 5 {
+				if q, err := dhcpv4.FromBytes(p.ToBytes()); err == nil {
+					return subj4(q)
+				}
+			}
+			return subj4(p)
+		}, "netboot-ack4-every-method")
 	}
 	// messages holding several instances of the same option type (accessors that merge or pick among them)
 	for k := 0; k < 12; k++ {
